@@ -29,6 +29,15 @@ Definition process_keyevent_prefix (e : med) (ev : keyevent) : outcome (med * be
   let s4 := flush_dirty s3 in
   Ok (mkEditor s4 st2, last s4).
 
+(* witnesses are computed step by step on closed terms (vm_compute under the existential binders
+   would evaluate the later steps on a symbolic editor) *)
+Definition pick (r : outcome (med * behavior)) : med := match r with Ok (e, _) => e | _ => e0 end.
+Definition pickb (r : outcome (med * bool)) : med := match r with Ok (e, _) => e | _ => e0 end.
+Definition english_e0 : med := ed_set_options std_ops e0 (english default_options).
+Definition p1 : med := Eval vm_compute in pick (process_keyevent_prefix english_e0 (key kc_X 120%N)).
+Definition p2 : med := Eval vm_compute in pickb (m_start_selecting p1).
+Definition p3 : med := Eval vm_compute in pick (process_keyevent_prefix p2 (key kc_Left 65533%N)).
+
 (* English mode, key x (committed at once), chewing_cand_open (fails; overwrites the last key
    result), Left: the key is Ignored but the commit string "x" is still reported *)
 Lemma C02_stale_commit_refuted_prefix :
@@ -37,7 +46,11 @@ Lemma C02_stale_commit_refuted_prefix :
     m_start_selecting e1 = Ok (e2, false) /\
     process_keyevent_prefix e2 (key kc_Left 65533%N) = Ok (e3, BIgnore) /\
     commit_buf (sh e3) = [120%N].
-Proof. vm_compute. do 3 eexists. repeat split. Qed.
+Proof. exists p1, p2, p3. vm_compute. repeat split. Qed.
+
+Definition f1 : med := Eval vm_compute in pick (m_key conv_single english_e0 (key kc_X 120%N)).
+Definition f2 : med := Eval vm_compute in pickb (m_start_selecting f1).
+Definition f3 : med := Eval vm_compute in pick (m_key conv_single f2 (key kc_Left 65533%N)).
 
 (* the same history on the model of the fixed code reports no commit string *)
 Lemma C02_stale_commit_fixed :
@@ -46,4 +59,4 @@ Lemma C02_stale_commit_fixed :
     m_start_selecting e1 = Ok (e2, false) /\
     m_key conv_single e2 (key kc_Left 65533%N) = Ok (e3, BIgnore) /\
     commit_buf (sh e3) = [].
-Proof. vm_compute. do 3 eexists. repeat split. Qed.
+Proof. exists f1, f2, f3. vm_compute. repeat split. Qed.
